@@ -31,7 +31,10 @@ class _SplitConditionalEffects(ast.NodeTransformer):
             if isinstance(n, (ast.Lambda, ast.ListComp, ast.SetComp, ast.DictComp, ast.GeneratorExp)):
                 continue
             if isinstance(n, ast.IfExp):
-                # not inside a comprehension / lambda
+                has_call = any(isinstance(x, ast.Call) for arm in (n.body, n.orelse) for x in ast.walk(arm))
+                eq_choice = isinstance(n.test, ast.Compare) and len(n.test.ops) == 1 and isinstance(n.test.ops[0], (ast.Eq, ast.NotEq)) and not has_call
+                if eq_choice:
+                    continue  # `b if a == n else a`: a value-level choice the interpreter names as one term (the other child)
                 return n
         return None
 
